@@ -22,6 +22,7 @@ then names alphabetically, Rp/Rm last) - justified by commutativity of numpy sca
 """
 import ast
 import os
+import re
 from fractions import Fraction
 
 from translator.pyexpr import TranslateError
@@ -256,6 +257,11 @@ class SplitExec:
                 return self.ev(n.args[0], env)
             if f.endswith(".copy") and isinstance(n.func, ast.Attribute):
                 return self.ev(n.func.value, env)
+            v = self.inline_call(n, env)
+            if v is not None:
+                if isinstance(v, tuple) and v and isinstance(v[0], tuple):
+                    self.err(n, "helper returning a tuple used as a single value")
+                return v
             self.err(n, "call")
         if isinstance(n, ast.UnaryOp) and isinstance(n.op, ast.USub):
             v = self.ev(n.operand, env)
@@ -295,6 +301,8 @@ class SplitExec:
                     self.err(n, "matrix @ vector other than C@Epsilon, sqrtC@Epsilon")
                 self.err(n, "matmul")
             self.err(n, "binary operator")
+        if isinstance(n, ast.IfExp):
+            return self.ev(n.body if self.cond(n.test, env) else n.orelse, env)
         self.err(n, "expression")
 
     # ---- statements ----------------------------------------------------------------------
@@ -315,8 +323,53 @@ class SplitExec:
         try:
             self.block(fn.body, env)
         except Ret as r:
+            if not (isinstance(r.v, tuple) and len(r.v) == 2 and all(is_mat(x) for x in r.v)):
+                raise TranslateError("%s: %s does not return a pair of matrices" % (self.fname, name))
             return r.v
         raise TranslateError("%s: %s falls off its end" % (self.fname, name))
+
+    SPECIAL_METHODS = ("__Rp_Rm", "__Spectral_Decomposition", "__Build_IxI", "_Eigen_values_vectors_projectors")
+
+    def inline_call(self, n, env, depth=[0]):
+        """value of a call to a private helper method `self.__x(...)` / a local closure, by symbolic
+        execution of its body (positional and keyword arguments, defaults that are constants)."""
+        f = ast.unparse(n.func)
+        target = None
+        if f.startswith("self.") and f[5:] in self.m and f[5:] not in self.SPECIAL_METHODS and not f[5:].startswith("__Split_"):
+            fn, params, cenv = self.m[f[5:]], None, {}
+            params = [a.arg for a in fn.args.args][1:]
+            target = fn
+        elif isinstance(n.func, ast.Name) and env.get(n.func.id, (None,))[0] == 'fn':
+            _, fn, cenv0 = env[n.func.id]
+            cenv = dict(cenv0)
+            params = [a.arg for a in fn.args.args]
+            target = fn
+        if target is None:
+            return None
+        if depth[0] > 5:
+            self.err(n, "helper calls nested too deeply")
+        if len(n.args) > len(params) or any(isinstance(a, ast.Starred) for a in n.args):
+            self.err(n, "helper call arguments")
+        for p_, a in zip(params, n.args):
+            cenv[p_] = self.ev(a, env)
+        for k in n.keywords:
+            if k.arg is None or k.arg not in params or k.arg in cenv and k.arg in params[:len(n.args)]:
+                self.err(n, "helper call keyword")
+            cenv[k.arg] = ('py', False) if k.arg == "verif" else self.ev(k.value, env)
+        nd = len(fn.args.defaults)
+        for p_, d_ in zip(params[len(params) - nd:], fn.args.defaults):
+            if p_ not in cenv:
+                cenv[p_] = ('py', False) if p_ == "verif" else self.ev(d_, env)
+        if any(p_ not in cenv for p_ in params):
+            self.err(n, "helper call: missing argument")
+        depth[0] += 1
+        try:
+            self.block(fn.body, cenv)
+        except Ret as r:
+            return r.v
+        finally:
+            depth[0] -= 1
+        self.err(n, "helper falls off its end")
 
     IGNORABLE_CALLS = ("tic.Tac",)
 
@@ -337,12 +390,17 @@ class SplitExec:
             self.err(st, "raise reached for configuration %r" % (self.cfg,))
         if isinstance(st, ast.Return):
             v = st.value
-            if isinstance(v, ast.Tuple) and len(v.elts) == 2:
-                r = [self.ev(x, env) for x in v.elts]
-                if not all(is_mat(x) for x in r):
-                    self.err(st, "returned values are not matrices")
-                raise Ret(tuple(r))
-            self.err(st, "return shape")
+            if v is None:
+                self.err(st, "bare return")
+            if isinstance(v, ast.Tuple):
+                raise Ret(tuple(self.ev(x, env) for x in v.elts))
+            raise Ret(self.ev(v, env))
+        if isinstance(st, ast.FunctionDef):
+            # local closure: inlined at its call sites
+            if st.decorator_list or st.args.vararg or st.args.kwarg or st.args.kwonlyargs:
+                self.err(st, "local function with decorators / star arguments")
+            env[st.name] = ('fn', st, env)
+            return
         if isinstance(st, ast.If):
             t = ast.unparse(st.test)
             if t == "verif":
@@ -391,6 +449,18 @@ class SplitExec:
                     if f in ("material.Get_sqrt_C_S", "self.__material.Get_sqrt_C_S") and len(names) == 2:
                         env[names[0]], env[names[1]] = ('A', 'sqrtC'), ('A', 'inv_sqrtC')
                         return
+                    v = self.inline_call(st.value, env)
+                    if v is not None:
+                        if not (isinstance(v, tuple) and len(v) == len(names) and all(isinstance(x, tuple) for x in v)):
+                            self.err(st, "helper does not return %d values" % len(names))
+                        for nm, x in zip(names, v):
+                            env[nm] = x
+                        return
+                if isinstance(st.value, ast.Tuple) and len(st.value.elts) == len(names):
+                    vals = [self.ev(x, env) for x in st.value.elts]
+                    for nm, x in zip(names, vals):
+                        env[nm] = x
+                    return
                 self.err(st, "tuple assignment")
         self.err(st, "statement")
 
@@ -481,6 +551,137 @@ def _norm(s):
     return "".join(s.split())
 
 
+
+# ----------------------------------------------------------------------------------------
+# local aliases: a name bound ONCE to a pure expression (a hoisted sub-expression, a value computed
+# once instead of twice ...) is inlined wherever the template-based extractors meet it.
+# Sound because (i) the name is assigned exactly once in the function and never mutated,
+# (ii) its right-hand side is a pure expression, (iii) nothing it reads is stored to afterwards.
+# Names the translator itself refers to (targets of its templates and tables) are never inlined.
+# ----------------------------------------------------------------------------------------
+_PURE_CALLS = {"Trace", "Det", "Norm", "TensorProd", "Project_matrix_to_vector", "Project_vector_to_matrix",
+               "len", "abs", "min", "max", "float", "int", "FeArray.asfearray", "FeArray.zeros", "FeArray.broadcast"}
+_CUR_ALIASES = {}
+_KNOWN_NAMES = None
+
+
+def _known_names():
+    global _KNOWN_NAMES
+    if _KNOWN_NAMES is None:
+        _KNOWN_NAMES = set(re.findall(r"[A-Za-z_][A-Za-z0-9_]*", open(__file__).read()))
+    return _KNOWN_NAMES
+
+
+def _store_base(t):
+    """base names stored to by an assignment target."""
+    if isinstance(t, ast.Name):
+        return [(t.id, "plain")]
+    if isinstance(t, (ast.Tuple, ast.List)):
+        return [(n, "tuple") for e in t.elts for n, _ in _store_base(e)]
+    if isinstance(t, ast.Starred):
+        return [(n, "tuple") for n, _ in _store_base(t.value)]
+    while isinstance(t, (ast.Subscript, ast.Attribute)):
+        t = t.value
+    return [(t.id, "mutate")] if isinstance(t, ast.Name) else []
+
+
+def _is_pure(n):
+    for x in ast.walk(n):
+        if isinstance(x, ast.Call):
+            f = ast.unparse(x.func)
+            if not (f in _PURE_CALLS or (f.startswith("np.") and not f.startswith("np.random"))):
+                return False
+            if any(k.arg == "out" for k in x.keywords):
+                return False
+        elif isinstance(x, (ast.Lambda, ast.Await, ast.Yield, ast.YieldFrom, ast.NamedExpr, ast.ListComp, ast.GeneratorExp,
+                            ast.SetComp, ast.DictComp)):
+            return False
+    return True
+
+
+def compute_aliases(fn):
+    stores = {}          # name -> list of (lineno, kind)
+    cand = {}
+    for st in ast.walk(fn):
+        tg = []
+        if isinstance(st, ast.Assign):
+            tg = st.targets
+        elif isinstance(st, (ast.AugAssign, ast.AnnAssign)):
+            tg = [st.target]
+            for n, _ in _store_base(st.target):
+                stores.setdefault(n, []).append((st.lineno, "mutate"))
+            continue
+        elif isinstance(st, (ast.For, ast.AsyncFor)):
+            tg = [st.target]
+        elif isinstance(st, ast.With):
+            tg = [i.optional_vars for i in st.items if i.optional_vars is not None]
+        elif isinstance(st, ast.Call):
+            # np.xxx(..., out=name) and name.method(...) may mutate
+            for k in st.keywords:
+                if k.arg == "out":
+                    for n, _ in _store_base(k.value):
+                        stores.setdefault(n, []).append((st.lineno, "mutate"))
+            continue
+        else:
+            continue
+        for t in tg:
+            for n, kind in _store_base(t):
+                stores.setdefault(n, []).append((st.lineno, kind))
+        if isinstance(st, ast.Assign) and len(st.targets) == 1 and isinstance(st.targets[0], ast.Name):
+            cand.setdefault(st.targets[0].id, []).append(st)
+    params = {a.arg for a in fn.args.args}
+    out = {}
+    for name, sts in cand.items():
+        if name in params or name in _known_names():
+            continue
+        if len(sts) != 1 or len(stores.get(name, [])) != 1 or stores[name][0][1] != "plain":
+            continue
+        st = sts[0]
+        if not _is_pure(st.value):
+            continue
+        reads = {x.id for x in ast.walk(st.value) if isinstance(x, ast.Name)}
+        if any(ln > st.lineno for r in reads for ln, _ in stores.get(r, [])):
+            continue       # something it reads is stored to later: inlining at the use site would be unsound
+        out[name] = st.value
+    return out
+
+
+def use_aliases(fn):
+    global _CUR_ALIASES
+    _CUR_ALIASES = compute_aliases(fn) if fn is not None else {}
+    return _CUR_ALIASES
+
+
+class _Inline(ast.NodeTransformer):
+    def __init__(self):
+        self.depth = 0
+
+    def visit_Name(self, n):
+        if isinstance(n.ctx, ast.Load) and n.id in _CUR_ALIASES and self.depth < 20:
+            self.depth += 1
+            r = self.visit(ast.parse(ast.unparse(_CUR_ALIASES[n.id]), mode="eval").body)
+            self.depth -= 1
+            return r
+        return n
+
+
+def inline_aliases(node):
+    """copy of an expression with the current function's aliases inlined."""
+    if not _CUR_ALIASES:
+        return node
+    return _Inline().visit(ast.parse(ast.unparse(node), mode="eval").body)
+
+
+def _vtxt(node):
+    """normalised text of a value expression, aliases inlined."""
+    return _norm(ast.unparse(inline_aliases(node)))
+
+
+def is_alias_stmt(st):
+    return isinstance(st, ast.Assign) and len(st.targets) == 1 and isinstance(st.targets[0], ast.Name) \
+        and st.targets[0].id in _CUR_ALIASES
+
+
 class Scalar:
     """translate a python expression to a scalar term given a name table (ast text -> term)."""
 
@@ -492,6 +693,8 @@ class Scalar:
         s = _norm(ast.unparse(n))
         if s in self.t:
             return self.t[s]
+        if isinstance(n, ast.Name) and n.id in _CUR_ALIASES:
+            return self.ev(_CUR_ALIASES[n.id])
         if isinstance(n, ast.Constant) and isinstance(n.value, (int, float)) and not isinstance(n.value, bool):
             return ('c', Fraction(repr(n.value)) if isinstance(n.value, float) else Fraction(n.value))
         if isinstance(n, ast.UnaryOp) and isinstance(n.op, ast.USub):
@@ -508,6 +711,9 @@ class Scalar:
             f = ast.unparse(n.func)
             if f in ("np.sqrt", "np.abs", "np.sign") and len(n.args) == 1:
                 return ('fn', f[3:], self.ev(n.args[0]))
+        if isinstance(n, ast.Name):
+            raise TranslateError("%s:%d: name `%s` is neither a quantity the translator knows nor an inlinable alias (a local assigned exactly "
+                                 "once to a pure expression, none of whose inputs is modified afterwards)" % (self.fname, getattr(n, "lineno", 0), n.id))
         raise TranslateError("%s:%d: unsupported scalar expression [%s]" % (self.fname, getattr(n, "lineno", 0), ast.unparse(n)[:100]))
 
 
@@ -551,6 +757,7 @@ def translate_rp_rm(methods, fname):
     fn = methods.get("__Rp_Rm")
     if fn is None:
         raise TranslateError("__Rp_Rm not found")
+    use_aliases(fn)
     vec = fn.args.args[1].arg
     tab = {"%s[:, :, %d]" % (vec, i): ('s', "v%d" % i) for i in range(3)}
     sc = Scalar(tab, fname)
@@ -566,10 +773,10 @@ def translate_rp_rm(methods, fname):
     rp = sc2.ev(find_assign(fn.body, "Rp_e_pg", fname).value)
     rm = sc2.ev(find_assign(fn.body, "Rm_e_pg", fname).value)
     ret = fn.body[-1]
-    if not isinstance(ret, ast.Return) or _norm(ast.unparse(ret.value)) != "(Rp_e_pg,Rm_e_pg)":
+    if not isinstance(ret, ast.Return) or _vtxt(ret.value) != "(Rp_e_pg,Rm_e_pg)":
         raise TranslateError("%s: __Rp_Rm does not return (Rp_e_pg, Rm_e_pg)" % fname)
     for st in fn.body:
-        ok = isinstance(st, (ast.Return, ast.Expr)) or (isinstance(st, ast.Assign) and ast.unparse(st.targets[0]) in ("dim", "trace", "Rp_e_pg", "Rm_e_pg")) \
+        ok = is_alias_stmt(st) or isinstance(st, (ast.Return, ast.Expr)) or (isinstance(st, ast.Assign) and ast.unparse(st.targets[0]) in ("dim", "trace", "Rp_e_pg", "Rm_e_pg")) \
             or (isinstance(st, ast.If) and _norm(ast.unparse(st.test)) in ("dim==3", "notisinstance(trace,FeArray)"))
         if not ok:
             raise TranslateError("%s:%d: unexpected statement in __Rp_Rm" % (fname, st.lineno))
@@ -580,12 +787,13 @@ def translate_eig2d(methods, fname):
     fn = methods.get("_Eigen_values_vectors_projectors")
     if fn is None:
         raise TranslateError("_Eigen_values_vectors_projectors not found")
+    use_aliases(fn)
     blk = find_if(fn.body, "self.dim == 2", fname)
     body = blk.body
     out = {}
     for tgt, want in (("det_e_pg", "Det(matrix_e_pg)"), ("tr_e_pg", "Trace(matrix_e_pg)")):
         a = find_assign(body, tgt, fname)
-        if _norm(ast.unparse(a.value)) != _norm(want):
+        if _vtxt(a.value) != _norm(want):
             raise TranslateError("%s:%d: %s is not %s" % (fname, a.lineno, tgt, want))
     sc = Scalar({"tr_e_pg": ('s', 'tr'), "det_e_pg": ('s', 'det')}, fname)
     out["delta"] = sc.ev(find_assign(body, "delta", fname).value)
@@ -595,36 +803,38 @@ def translate_eig2d(methods, fname):
     sc = Scalar({"eigs_e_pg[:, :, 0]": ('s', 'l0'), "eigs_e_pg[:, :, 1]": ('s', 'l1')}, fname)
     out["v1mv2"] = sc.ev(find_assign(body, "v1_m_v2", fname).value)
     a = find_assign(body, "(elems, pdgs)", fname)
-    if _norm(ast.unparse(a.value)) != _norm("np.where(eigs_e_pg[:, :, 0] != eigs_e_pg[:, :, 1])"):
+    if _vtxt(a.value) != _norm("np.where(eigs_e_pg[:, :, 0] != eigs_e_pg[:, :, 1])"):
         raise TranslateError("%s:%d: generic/degenerate branch test changed" % (fname, a.lineno))
     a = find_assign(body, "M1", fname)
-    if _norm(ast.unparse(a.value)) != _norm("FeArray.zeros(Ne, nPg, 2, 2)"):
+    if _vtxt(a.value) != _norm("FeArray.zeros(Ne, nPg, 2, 2)"):
         raise TranslateError("%s:%d: M1 initialisation changed" % (fname, a.lineno))
     a = find_assign(body, "M1[:, :, 0, 0]", fname)
-    if _norm(ast.unparse(a.value)) != "1":
+    if _vtxt(a.value) != "1":
         raise TranslateError("%s:%d: degenerate M1 initialisation changed" % (fname, a.lineno))
     inner = find_if(body, "elems.size > 0", fname)
     a = find_assign(inner.body, "v1_m_v2[v1_m_v2 == 0]", fname)
-    if _norm(ast.unparse(a.value)) != "1":
+    if _vtxt(a.value) != "1":
         raise TranslateError("%s:%d: zero-divisor guard changed" % (fname, a.lineno))
     sc = Scalar({"matrix_e_pg": ('s', 'x'), "I_e_pg": ('s', 'i'), "eigs_e_pg[:, :, 1]": ('s', 'l1'),
                  "eigs_e_pg[:, :, 0]": ('s', 'l0'), "v1_m_v2": ('s', 'dv')}, fname)
     out["m1tot"] = sc.ev(find_assign(inner.body, "m1_tot", fname).value)
     a = find_assign(inner.body, "M1[elems, pdgs]", fname)
-    if _norm(ast.unparse(a.value)) != _norm("m1_tot[elems, pdgs]"):
+    if _vtxt(a.value) != _norm("m1_tot[elems, pdgs]"):
         raise TranslateError("%s:%d: M1 scatter changed" % (fname, a.lineno))
     sc = Scalar({"I_e_pg": ('s', 'i'), "M1": ('s', 'm1')}, fname)
     out["M2"] = sc.ev(find_assign(body, "M2", fname).value)
     out["delta_post"] = ('s', 'x')
     for st in body:
         if isinstance(st, ast.Assign) and _norm(ast.unparse(st.targets[0])) in (_norm("delta[delta < 0]"), _norm("delta[delta < 0.0]")):
-            if _norm(ast.unparse(st.value)) not in ("0", "0.0"):
+            if _vtxt(st.value) not in ("0", "0.0"):
                 raise TranslateError("%s:%d: delta clamp value changed" % (fname, st.lineno))
             out["delta_post"] = "clamp"
     allowed = {"delta[delta < 0]", "delta[delta < 0.0]",
                "det_e_pg", "tr_e_pg", "delta", "eigs_e_pg", "eigs_e_pg[:, :, 0]", "eigs_e_pg[:, :, 1]", "v1_m_v2",
                "(elems, pdgs)", "M1", "M1[:, :, 0, 0]", "M2"}
     for st in body:
+        if is_alias_stmt(st):
+            continue
         if isinstance(st, ast.Assign):
             if ast.unparse(st.targets[0]) not in allowed:
                 raise TranslateError("%s:%d: unexpected assignment in the 2-D eigen block" % (fname, st.lineno))
@@ -632,6 +842,8 @@ def translate_eig2d(methods, fname):
             if st is not inner:
                 raise TranslateError("%s:%d: unexpected branch in the 2-D eigen block" % (fname, st.lineno))
             for s2 in st.body:
+                if is_alias_stmt(s2):
+                    continue
                 if not (isinstance(s2, ast.Assign) and ast.unparse(s2.targets[0]) in ("v1_m_v2[v1_m_v2 == 0]", "m1_tot", "M1[elems, pdgs]")):
                     raise TranslateError("%s:%d: unexpected statement in the generic 2-D projector block" % (fname, s2.lineno))
         elif isinstance(st, ast.Expr) and isinstance(st.value, ast.Call) and ast.unparse(st.value.func) == "tic.Tac":
@@ -658,6 +870,8 @@ class Mat3Expr:
             return "1"
         if s in ("M1", "M3"):
             return s
+        if isinstance(n, ast.Name) and n.id in _CUR_ALIASES:
+            return self.ev(_CUR_ALIASES[n.id])
         if isinstance(n, ast.BinOp):
             if isinstance(n.op, ast.MatMult):
                 return "(%s * %s)" % (self.ev(n.left), self.ev(n.right))
@@ -675,6 +889,7 @@ class Mat3Expr:
 
 def translate_eig3d(methods, fname):
     fn = methods["_Eigen_values_vectors_projectors"]
+    use_aliases(fn)
     blk = find_if(fn.body, "self.dim == 2", fname)
     if len(blk.orelse) != 1 or not isinstance(blk.orelse[0], ast.If) or _norm(ast.unparse(blk.orelse[0].test)) != "self.dim==3":
         raise TranslateError("%s: 3-D branch of the eigen routine not found" % fname)
@@ -711,7 +926,7 @@ def translate_eig3d(methods, fname):
     names = {n.id for n in ast.walk(v) if isinstance(n, ast.Name)}
     if "normSq_e_pg" in names:
         b = find_assign(body, "normSq_e_pg", fname)
-        if _norm(ast.unparse(b.value)) != _norm("Trace(matrix_e_pg @ matrix_e_pg)"):
+        if _vtxt(b.value) != _norm("Trace(matrix_e_pg @ matrix_e_pg)"):
             raise TranslateError("%s:%d: normSq_e_pg is not Trace(matrix_e_pg @ matrix_e_pg)" % (fname, b.lineno))
     sc = Scalar({"g_e_pg": ('s', 'g'), "normSq_e_pg": ('s', 'n')}, fname)
     out["g_neq_0"] = (">" if isinstance(v.ops[0], ast.Gt) else "<>", sc.ev(v.left), sc.ev(v.comparators[0]))
@@ -721,8 +936,8 @@ def translate_eig3d(methods, fname):
     for st in body:
         if isinstance(st, ast.Expr) and isinstance(st.value, ast.Call) and ast.unparse(st.value.func) == "np.divide":
             c = st.value
-            kws = {k.arg: _norm(ast.unparse(k.value)) for k in c.keywords}
-            if [_norm(ast.unparse(x)) for x in c.args] != [_norm("arg"), _norm("g_e_pg ** (3 / 2)")] or kws != {"out": "arg", "where": "g_neq_0"}:
+            kws = {k.arg: _vtxt(k.value) for k in c.keywords}
+            if [_vtxt(x) for x in c.args] != [_norm("arg"), _norm("g_e_pg ** (3 / 2)")] or kws != {"out": "arg", "where": "g_neq_0"}:
                 raise TranslateError("%s:%d: the Lode argument is no longer arg / g_e_pg**(3/2) where g_neq_0" % (fname, st.lineno))
             found_div = True
     if not found_div:
@@ -744,7 +959,7 @@ def translate_eig3d(methods, fname):
         if isinstance(st, ast.Assign) and ast.unparse(st.targets[0]) == "tol_theta" and not isinstance(st.value, ast.Constant):
             raise TranslateError("%s:%d: tol_theta is not a constant" % (fname, st.lineno))
         if isinstance(st, ast.Assign) and ast.unparse(st.targets[0]) == "arg" and st is not find_assign(body, "arg", fname):
-            if _norm(ast.unparse(st.value)) != _norm("np.clip(arg, -1, 1)"):
+            if _vtxt(st.value) != _norm("np.clip(arg, -1, 1)"):
                 raise TranslateError("%s:%d: unexpected re-assignment of arg" % (fname, st.lineno))
     return out
 
@@ -755,6 +970,7 @@ def translate_bulk(repo):
     fname = "Models/Elastic/_laws.py"
     methods, _ = class_methods(ast.parse(open(path).read()), "Isotropic")
     fn = methods.get("get_bulk")
+    use_aliases(fn)
     if fn is None:
         raise TranslateError("%s: Isotropic.get_bulk not found" % fname)
     want = {"mu": "self.get_mu()", "lmbda": "self.get_lambda()"}
@@ -765,7 +981,7 @@ def translate_bulk(repo):
         if isinstance(st, ast.Assign) and isinstance(st.targets[0], ast.Name):
             nm = st.targets[0].id
             if nm in want:
-                if _norm(ast.unparse(st.value)) != _norm(want[nm]):
+                if _vtxt(st.value) != _norm(want[nm]):
                     raise TranslateError("%s:%d: get_bulk: %s is not %s" % (fname, st.lineno, nm, want[nm]))
                 continue
             if nm == "bulk":
@@ -779,21 +995,103 @@ def translate_bulk(repo):
     return val
 
 
+def _dim_test(test, dim):
+    """value of a test `dim == k` / `self.dim == k` (None if the test is something else)."""
+    if isinstance(test, ast.Compare) and len(test.ops) == 1 and isinstance(test.ops[0], (ast.Eq, ast.NotEq)) \
+            and _norm(ast.unparse(test.left)) in ("dim", "self.dim") and isinstance(test.comparators[0], ast.Constant) \
+            and isinstance(test.comparators[0].value, int):
+        r = (dim == test.comparators[0].value)
+        return r if isinstance(test.ops[0], ast.Eq) else not r
+    return None
+
+
+def list_under_dim(fn, name, dim, fname):
+    """Value of the list-valued local `name` at the end of `fn` for the given dimension, as a list of
+    normalised element texts.  Handles: list/tuple displays, `x if dim == k else y`, per-dimension
+    if/elif blocks, names bound to a call (m1 = f(M1)), comprehensions `[f(M) for M in <list>]`."""
+    env = {}
+
+    def run(stmts):
+        for st in stmts:
+            if isinstance(st, ast.If):
+                v = _dim_test(st.test, dim)
+                if v is None:
+                    if _norm(ast.unparse(st.test)) == "verif":
+                        continue
+                    # another kind of branch: names assigned inside are not tracked
+                    for x in ast.walk(st):
+                        if isinstance(x, ast.Assign):
+                            for t in x.targets:
+                                for n, _k in _store_base(t):
+                                    env.pop(n, None) if n in ("list_m", "list_M", name) else None
+                    continue
+                run(st.body if v else st.orelse)
+            elif isinstance(st, ast.Assign) and len(st.targets) == 1 and isinstance(st.targets[0], ast.Name):
+                env[st.targets[0].id] = st.value
+            elif isinstance(st, ast.Assign):
+                for t in st.targets:
+                    for n, k in _store_base(t):
+                        if k != "mutate":
+                            env.pop(n, None)
+
+    run(fn.body)
+
+    def elems(node, depth=0):
+        if depth > 10:
+            raise TranslateError("%s: %s: list definition too deep" % (fname, name))
+        if isinstance(node, (ast.List, ast.Tuple)):
+            return [item(e, depth) for e in node.elts]
+        if isinstance(node, ast.IfExp):
+            v = _dim_test(node.test, dim)
+            if v is None:
+                raise TranslateError("%s:%d: %s: conditional on something else than dim" % (fname, node.lineno, name))
+            return elems(node.body if v else node.orelse, depth + 1)
+        if isinstance(node, ast.Name) and node.id in env:
+            return elems(env[node.id], depth + 1)
+        if isinstance(node, ast.ListComp) and len(node.generators) == 1:
+            g = node.generators[0]
+            if g.ifs or g.is_async or not isinstance(g.target, ast.Name):
+                raise TranslateError("%s:%d: %s: unsupported comprehension" % (fname, node.lineno, name))
+            src = elems(g.iter, depth + 1)
+            out = []
+            for e in src:
+                class Sub(ast.NodeTransformer):
+                    def visit_Name(self, n):
+                        return ast.parse(e, mode="eval").body if n.id == g.target.id else n
+                out.append(_norm(ast.unparse(Sub().visit(ast.parse(ast.unparse(node.elt), mode="eval").body))))
+            return out
+        if isinstance(node, ast.Call) and ast.unparse(node.func) == "list" and len(node.args) == 1:
+            return elems(node.args[0], depth + 1)
+        raise TranslateError("%s:%d: %s: unsupported list definition [%s]" % (fname, getattr(node, "lineno", 0), name, ast.unparse(node)[:80]))
+
+    def item(e, depth):
+        # a name bound to a call of a pure function of matrices (m1 = Project_matrix_to_vector(M1)) is expanded once
+        if isinstance(e, ast.Name) and e.id in env and isinstance(env[e.id], ast.Call) and _is_pure(env[e.id]) \
+                and e.id not in ("M1", "M2", "M3"):
+            return _norm(ast.unparse(env[e.id]))
+        return _norm(ast.unparse(e))
+
+    if name not in env:
+        raise TranslateError("%s: %s is not assigned for dim == %d" % (fname, name, dim))
+    return elems(env[name])
+
+
 def translate_assembly2d(methods, fname, repo):
     """2-D branch of __Spectral_Decomposition: projP from eigenvalues and Kelvin-Mandel eigenprojector
     vectors; plus the Kelvin-Mandel packing Project_matrix_to_vector (2-D part)."""
     fn = methods.get("__Spectral_Decomposition")
     if fn is None:
         raise TranslateError("%s: __Spectral_Decomposition not found" % fname)
+    use_aliases(fn)
     out = {}
     body = fn.body
     a = find_assign(body, "(val_e_pg, list_m, list_M)", fname)
-    if not _norm(ast.unparse(a.value)).startswith(_norm("self._Eigen_values_vectors_projectors(vector_e_pg")):
+    if not _vtxt(a.value).startswith(_norm("self._Eigen_values_vectors_projectors(vector_e_pg")):
         raise TranslateError("%s:%d: eigen data do not come from _Eigen_values_vectors_projectors(vector_e_pg, ...)" % (fname, a.lineno))
     sc = Scalar({"val_e_pg": ('s', 'l')}, fname)
     out["valp"] = sc.ev(find_assign(body, "valp", fname).value)
     a = find_assign(body, "dvalp", fname)
-    if _norm(ast.unparse(a.value)) != _norm("np.heaviside(val_e_pg, 0.5)"):
+    if _vtxt(a.value) != _norm("np.heaviside(val_e_pg, 0.5)"):
         raise TranslateError("%s:%d: dvalp is not np.heaviside(val_e_pg, 0.5)" % (fname, a.lineno))
     blk = find_if(body, "dim == 2", fname)
     b2 = blk.body
@@ -805,7 +1103,7 @@ def translate_assembly2d(methods, fname, repo):
     }
     for tgt, want in expect.items():
         a = find_assign(b2, tgt, fname)
-        if _norm(ast.unparse(a.value)) != _norm(want):
+        if _vtxt(a.value) != _norm(want):
             raise TranslateError("%s:%d: %s is not %s" % (fname, a.lineno, tgt, want))
     sc = Scalar({"val_e_pg[..., 0]": ('s', 'l0'), "val_e_pg[..., 1]": ('s', 'l1')}, fname)
     out["dv"] = sc.ev(find_assign(b2, "v1_m_v2", fname).value)
@@ -821,21 +1119,27 @@ def translate_assembly2d(methods, fname, repo):
     out["projM"] = sc.ev(find_assign(b2, "projM", fname).value)
     okt = set(expect) | {"v1_m_v2", "BetaP", "gammap", "projP", "projM"}
     for st in b2:
+        if is_alias_stmt(st):
+            continue
         if isinstance(st, ast.Assign):
             if ast.unparse(st.targets[0]) not in okt:
                 raise TranslateError("%s:%d: unexpected assignment in the 2-D projector assembly" % (fname, st.lineno))
         elif not (isinstance(st, ast.Expr) and isinstance(st.value, ast.Call) and ast.unparse(st.value.func) == "tic.Tac"):
             raise TranslateError("%s:%d: unexpected statement in the 2-D projector assembly" % (fname, st.lineno))
     ret = fn.body[-1]
-    if not (isinstance(ret, ast.Return) and _norm(ast.unparse(ret.value)) == "(projP,projM)"):
+    if not (isinstance(ret, ast.Return) and _vtxt(ret.value) == "(projP,projM)"):
         raise TranslateError("%s: __Spectral_Decomposition does not return (projP, projM)" % fname)
     # the eigen routine hands over m_i = Project_matrix_to_vector(M_i) and [m1, m2]
     fe = methods["_Eigen_values_vectors_projectors"]
-    blk = find_if(fe.body, "dim == 2", fname)
-    for tgt, want in (("m1", "Project_matrix_to_vector(M1)"), ("m2", "Project_matrix_to_vector(M2)"), ("list_m", "[m1, m2]"), ("list_M", "[M1, M2]")):
-        a = find_assign(blk.body, tgt, fname)
-        if _norm(ast.unparse(a.value)) != _norm(want):
-            raise TranslateError("%s:%d: %s is not %s" % (fname, a.lineno, tgt, want))
+    got_M = list_under_dim(fe, "list_M", 2, fname)
+    got_m = list_under_dim(fe, "list_m", 2, fname)
+    if got_M != ["M1", "M2"]:
+        raise TranslateError("%s: in 2-D list_M evaluates to %s, expected [M1, M2]" % (fname, got_M))
+    if got_m != [_norm("Project_matrix_to_vector(M1)"), _norm("Project_matrix_to_vector(M2)")]:
+        raise TranslateError("%s: in 2-D list_m evaluates to %s, expected [Project_matrix_to_vector(M1), Project_matrix_to_vector(M2)]" % (fname, got_m))
+    ret = fe.body[-1]
+    if not (isinstance(ret, ast.Return) and _norm(ast.unparse(ret.value)) == _norm("(eigs_e_pg, list_m, list_M)")):
+        raise TranslateError("%s: the eigen routine does not return (eigs_e_pg, list_m, list_M)" % fname)
     # Kelvin-Mandel packing, 2-D part
     upath = os.path.join(repo, "EasyFEA", "Models", "_utils.py")
     uname = "Models/_utils.py"
@@ -878,6 +1182,8 @@ class DegExpr:
         t = _norm(ast.unparse(n))
         if t in self.env:
             return self.env[t]
+        if isinstance(n, ast.Name) and n.id in _CUR_ALIASES:
+            return self.ev(_CUR_ALIASES[n.id])
         if isinstance(n, ast.Constant) and isinstance(n.value, (int, float)) and not isinstance(n.value, bool):
             return ('S', sc_coq(('c', Fraction(repr(n.value)) if isinstance(n.value, float) else Fraction(n.value))))
         if isinstance(n, ast.UnaryOp) and isinstance(n.op, ast.USub):
@@ -901,13 +1207,14 @@ class DegExpr:
 
 def translate_eig3d_degenerate(methods, fname):
     fn = methods["_Eigen_values_vectors_projectors"]
+    use_aliases(fn)
     blk = find_if(fn.body, "self.dim == 2", fname)
     body = blk.orelse[0].body
     out = {}
     for nm, want in (("mat_e_pg", "np.asarray(matrix_e_pg)"), ("I1", "np.asarray(I1_e_pg)"), ("sqrt_g", "np.asarray(sqrt_g_e_pg)"),
                      ("eye3", "np.eye(3)"), ("sqrt_g_e_pg", "np.sqrt(g_e_pg)"), ("I1_e_pg", "Trace(matrix_e_pg)")):
         a = find_assign(body, nm, fname)
-        if _norm(ast.unparse(a.value)) != _norm(want):
+        if _vtxt(a.value) != _norm(want):
             raise TranslateError("%s:%d: %s is not %s" % (fname, a.lineno, nm, want))
     # case 4 defaults
     base = {"I1": ('S', 'I1')}
@@ -915,7 +1222,7 @@ def translate_eig3d_degenerate(methods, fname):
         out["c4_val%d" % k] = DegExpr(fname, "", base).ev(find_assign(body, "val%d_e_pg" % k, fname).value)[1]
     for M in ("M1", "M3"):
         a = find_assign(body, M, fname)
-        if _norm(ast.unparse(a.value)) != _norm("np.zeros(mat_e_pg.shape)"):
+        if _vtxt(a.value) != _norm("np.zeros(mat_e_pg.shape)"):
             raise TranslateError("%s:%d: default %s is not np.zeros(mat_e_pg.shape)" % (fname, a.lineno, M))
         idx = None
         for st in body:
@@ -923,7 +1230,7 @@ def translate_eig3d_degenerate(methods, fname):
                 t = _norm(ast.unparse(st.targets[0]))
                 for i in range(3):
                     if t == _norm("%s[..., %d, %d]" % (M, i, i)):
-                        if idx is not None or _norm(ast.unparse(st.value)) != "1":
+                        if idx is not None or _vtxt(st.value) != "1":
                             raise TranslateError("%s:%d: default %s initialisation changed" % (fname, st.lineno, M))
                         idx = i
         if idx is None:
@@ -939,7 +1246,7 @@ def translate_eig3d_degenerate(methods, fname):
         if blk_c is None:
             raise TranslateError("%s: block `if %s.any()` not found" % (fname, case))
         a = find_assign(blk_c.body, "sqrt_g_c%d" % c, fname)
-        if _norm(ast.unparse(a.value)) != _norm("sqrt_g[%s]" % case):
+        if _vtxt(a.value) != _norm("sqrt_g[%s]" % case):
             raise TranslateError("%s:%d: sqrt_g_c%d is not sqrt_g[%s]" % (fname, a.lineno, c, case))
         env = {"I1": ('S', 'I1'), "sqrt_g_c%d" % c: ('S', 'sg'), "mat_e_pg": ('M', 'X'), "eye3": ('M', '1')}
         de = DegExpr(fname, case, env)
@@ -959,6 +1266,8 @@ def translate_eig3d_degenerate(methods, fname):
                         break
                 else:
                     raise TranslateError("%s:%d: unexpected += in case %d" % (fname, st.lineno, c))
+                continue
+            if is_alias_stmt(st):
                 continue
             if isinstance(st, ast.Assign):
                 t = _norm(ast.unparse(st.targets[0]))
@@ -990,12 +1299,15 @@ def translate_sources(methods, fname):
         fn = methods.get(meth)
         if fn is None:
             raise TranslateError("%s not found" % meth)
+        use_aliases(fn)
         psi = fn.args.args[1].arg
         for regu in ("AT1", "AT2"):
             blk = find_if(fn.body, "self.regularization == self.ReguType.%s" % regu, fname)
             tab = {psi: ('s', 'psi'), "Gc": ('s', 'Gc'), "l0": ('s', 'l0')}
             cur = None
             for st in blk.body:
+                if is_alias_stmt(st):
+                    continue
                 if not (isinstance(st, ast.Assign) and isinstance(st.targets[0], ast.Name)):
                     raise TranslateError("%s:%d: unexpected statement in %s/%s" % (fname, st.lineno, meth, regu))
                 sc = Scalar(tab, fname)
@@ -1012,6 +1324,7 @@ def translate_sources(methods, fname):
     fn = methods.get("Get_g_e_pg")
     if fn is None:
         raise TranslateError("Get_g_e_pg not found")
+    use_aliases(fn)
     a = find_assign(fn.body, "g_e_pg", fname)
     out["g"] = Scalar({"d_e_pg": ('s', 'd'), "k_res": ('s', 'k_res')}, fname).ev(a.value)
     return out
@@ -1046,6 +1359,7 @@ def _contains_seq(stmts, template, fname, what):
 
 
 def translate_history(simfile):
+    use_aliases(None)
     src = open(simfile).read()
     tree = ast.parse(src)
     methods, _ = class_methods(tree, "PhaseField")
@@ -1059,7 +1373,7 @@ def translate_history(simfile):
     if i + len(HIST_TEMPLATE) != len(blk.body):
         raise TranslateError("%s:%d: statements after the history update" % (fname, blk.lineno))
     a = find_assign(blk.body, "old_psiPlus_e_pg", fname)
-    if _norm(ast.unparse(a.value)) != _norm("self.__old_psiP_e_pg.copy()"):
+    if _vtxt(a.value) != _norm("self.__old_psiP_e_pg.copy()"):
         raise TranslateError("%s:%d: old history is not read from self.__old_psiP_e_pg" % (fname, a.lineno))
     tail = [_norm(ast.unparse(s)) for s in fn.body[-2:]]
     if tail != [_norm("self.__psiP_e_pg = FeArray.asfearray(psiP_e_pg)"), _norm("return self.__psiP_e_pg")]:
@@ -1082,7 +1396,7 @@ def translate_history(simfile):
         elif t not in (_norm("self.__updatedDisplacement = False"), _norm("self.__updatedDamage = False")):
             raise TranslateError("%s: Solve: unexpected statement after the HistoryDamage maximum [%s]" % (fname, t))
     a = find_assign(so.body, "old_damage", fname)
-    if _norm(ast.unparse(a.value)) != "self.damage":
+    if _vtxt(a.value) != "self.damage":
         raise TranslateError("%s: Solve: old_damage is not self.damage" % fname)
     lb = methods.get("Get_lb_ub")
     blk = find_if(lb.body, "problemType == self.ProblemTypes.damage", fname)
